@@ -843,6 +843,24 @@ func (fv *FV) copyBuiltin(e *Env, x *ast.CallExpr, dst, src Value, rt types.Type
 func (fv *FV) bindParams(u *FuncUnit, recv *Value, args []Value) map[types.Object]Value {
 	sig := u.Fn.Type().(*types.Signature)
 	bind := map[types.Object]Value{}
+	if u.stubSig != nil {
+		// contract on an interface method: clauses name the stub's parameters (receiver first)
+		ps := u.stubSig.Params()
+		if recv != nil {
+			rv := *recv
+			rv.Type = ps.At(0).Type()
+			bind[ps.At(0)] = rv
+		}
+		for i := 0; i+1 < ps.Len() && i < len(args); i++ {
+			v := args[i]
+			if _, isIface := ps.At(i+1).Type().Underlying().(*types.Interface); isIface && v.Type != nil {
+				v.ArgType = v.Type
+			}
+			v.Type = ps.At(i+1).Type()
+			bind[ps.At(i+1)] = v
+		}
+		return bind
+	}
 	if sig.Recv() != nil && recv != nil {
 		bind[sig.Recv()] = *recv
 	}
@@ -902,6 +920,9 @@ func (fv *FV) applyContract(e *Env, x *ast.CallExpr, u *FuncUnit, recv *Value, a
 		results = append(results, rv)
 		if res.At(i).Name() != "" {
 			bind[res.At(i)] = rv
+		}
+		if u.stubSig != nil && u.stubSig.Results().At(i).Name() != "" {
+			bind[u.stubSig.Results().At(i)] = rv
 		}
 	}
 	for _, cl := range c.Ensures {
